@@ -277,3 +277,65 @@ func CtlUse2(xs []int) bool {
 	_ = ctlWrapBoundOK(1, 2, ctlWrapBound(1, 2, nil))
 	return ctlFlagReduce(xs)
 }
+
+// ---- rangecopy: an update made to the per-iteration copy of a struct element
+
+// must fire: the decrement lands on the copy
+func ctlRangeCopyBad(rules []ctlRule, added map[int]bool) bool {
+	run := false
+	for _, r := range rules {
+		for _, in := range r.glyphs {
+			if added[in] {
+				r.missing--
+			}
+		}
+		if r.missing == 0 {
+			run = true
+		}
+	}
+	return run
+}
+
+// must stay silent: the copy is stored back
+func ctlRangeCopyGood(rules []ctlRule, added map[int]bool) {
+	for i, r := range rules {
+		for _, in := range r.glyphs {
+			if added[in] {
+				r.missing--
+			}
+		}
+		rules[i] = r
+	}
+}
+
+// ---- extremumlocal: a running maximum that starts at zero
+
+// must fire: right stays 0 when every x is negative
+func ctlExtremumLocalBad(xs []float64) (float64, float64) {
+	var left, right float64
+	first := true
+	for _, x := range xs {
+		if first {
+			left = x
+			first = false
+		}
+		left, right = min(left, x), max(right, x)
+	}
+	return left, right
+}
+
+// must stay silent
+func ctlExtremumLocalGood(xs []float64) (float64, float64) {
+	var left, right float64
+	first := true
+	for _, x := range xs {
+		if first || x < left {
+			left = x
+		}
+		if first || x > right {
+			right = x
+		}
+		first = false
+	}
+	return left, right
+}
